@@ -227,6 +227,50 @@ fn huge_scenarios(r: &mut Report) {
         Ok(v) => fails.extend(v),
         Err(_) => fails.push("an insertion into a stack with a capacity near usize::MAX / from an iterator of astronomic length panicked".into()),
     }
+    // iterators that are not fused (None, then values again) or whose size hint is astronomic / infinite: try_extend must
+    // still be all or nothing - Ok with exactly the values yielded before the first None on top (first value = new top),
+    // or an error with the contents unchanged - and must not reserve by the size hint
+    let res2 = std::panic::catch_unwind(|| {
+        let mut out: Vec<String> = vec![];
+        for (max, pre) in [(5usize, vec![10i64, 20]), (10, vec![10]), (3, vec![]), (2, vec![1, 2]), (0, vec![])] {
+            for gap_after in [0usize, 1, 2, 4] {
+                let mut s: Stack<i64> = Stack::default();
+                s.set_max_stack_size(max);
+                s.push_many(pre.clone().into_iter().rev().collect::<Vec<_>>()).expect("fits");
+                let before = contents(&s);
+                // yields `gap_after` values, then None once, then keeps yielding values
+                let mut k = 0usize;
+                let mut unfused = std::iter::from_fn(|| { k += 1; if k == gap_after + 1 { None } else { Some(100 + k as i64) } });
+                let verdict = s.try_extend(&mut unfused);
+                let after = contents(&s);
+                match verdict {
+                    Ok(()) => {
+                        let mut want = before.clone();
+                        want.extend((1..=gap_after as i64).rev().map(|j| 100 + j));
+                        if after != want || after.len() > max { out.push(format!("try_extend from a non-fused iterator ({gap_after} values, None, more values) into max={max} {before:?}: Ok with contents {after:?}, expected {want:?}")); }
+                    }
+                    Err(e) => if after != before { out.push(format!("try_extend from a non-fused iterator into max={max} {before:?}: {} but contents became {after:?}", err(&e))); },
+                }
+            }
+            // infinite / astronomically long inputs: overflow, nothing changed, no panic
+            let mut s: Stack<i64> = Stack::default();
+            s.set_max_stack_size(max);
+            s.push_many(pre.clone().into_iter().rev().collect::<Vec<_>>()).expect("fits");
+            let before = contents(&s);
+            let v1 = s.try_extend(&mut std::iter::repeat(7i64));
+            let v2 = s.try_extend(&mut (0i64..i64::MAX));
+            let v3 = s.try_extend(&mut (0u64..u64::MAX).map(|x| x as i64));
+            for (name, v) in [("repeat", &v1), ("0..i64::MAX", &v2), ("(0..u64::MAX).map", &v3)] {
+                if !matches!(v, Err(StackError::Overflow { .. })) { out.push(format!("try_extend of the endless input `{name}` into max={max}: {v:?}")); }
+            }
+            if contents(&s) != before { out.push(format!("try_extend of an endless input changed the contents of max={max} {before:?} to {:?}", contents(&s))); }
+        }
+        out
+    });
+    match res2 {
+        Ok(v) => fails.extend(v),
+        Err(_) => fails.push("try_extend from a non-fused iterator or from an iterator with an astronomic size hint panicked".into()),
+    }
     r.case("stack huge capacities", true);
     r.hit("huge capacity / iterator scenarios");
     for f in fails {
@@ -260,7 +304,8 @@ fn alphabet() -> Vec<Op> {
 }
 
 fn random_history(rng: &mut SplitMix, maxlen: u64) -> (usize, Vec<Op>) {
-    let max = *rng.pick(&[0usize, 1, 2, 3, 4, 5, 8, 16, 1000]);
+    // small capacities mostly; now and then a huge finite one (beyond isize::MAX, just below usize::MAX) or unlimited
+    let max = if rng.chance(1, 12) { *rng.pick(&[usize::MAX, usize::MAX - 1, (usize::MAX >> 1) + 1, usize::MAX >> 1]) } else { *rng.pick(&[0usize, 1, 2, 3, 4, 5, 8, 16, 1000]) };
     let len = 1 + rng.below(maxlen);
     let mut next = 10i64;
     let mut fresh = |rng: &mut SplitMix, k: u64| -> Vec<i64> {
@@ -280,7 +325,7 @@ fn random_history(rng: &mut SplitMix, maxlen: u64) -> (usize, Vec<Op>) {
             11 => Op::Discard(rng.below(5) as usize),
             12 | 13 => Op::PushMany(fresh(rng, 5)),
             14 | 15 => Op::TryExtend(fresh(rng, 6)),
-            16 => Op::SetMax(*rng.pick(&[0usize, 1, 2, 3, 5, 8, 1000])),
+            16 => Op::SetMax(*rng.pick(&[0usize, 1, 2, 3, 5, 8, 1000, usize::MAX, (usize::MAX >> 1) + 1])),
             17 => Op::Size,
             18 => Op::IsFull,
             _ => rng.pick(&[Op::IsEmpty, Op::MaxSize]).clone(),
